@@ -6,6 +6,7 @@ use std::sync::Mutex;
 use std::time::Duration;
 
 mod simfs;
+mod suite_crash;
 mod suite_db;
 mod suite_filter;
 mod suite_log;
@@ -42,6 +43,7 @@ fn main() {
         "table" => suite_table::run_table,
         "vfn" => suite_version::run_vfn,
         "dbhist" => suite_db::run_dbhist,
+        "crash" => suite_crash::run_crash,
         _ => panic!("unknown suite {}", suite),
     };
     let timeout = Duration::from_secs(
